@@ -10,6 +10,8 @@ pub struct Cfg {
     pub paste_names: bool,
     pub docs: bool,
     pub crlf: bool,
+    /// every line break is drawn separately from LF / CRLF, with occasional empty lines (so CRLF meets LF)
+    pub mixed_eol: bool,
     pub non_ascii: bool,
     pub dead_use: bool,
     pub multiclass_args_hints: bool,
@@ -27,6 +29,7 @@ impl Cfg {
             paste_names: rng.chance(1, 2),
             docs: rng.chance(2, 3),
             crlf: rng.chance(1, 6),
+            mixed_eol: false,
             non_ascii: rng.chance(1, 3),
             dead_use: false,
             multiclass_args_hints: true,
@@ -181,8 +184,21 @@ impl<'r> G<'r> {
         self.files[self.cur].text.len()
     }
     pub fn nl(&mut self) {
-        let e = self.eol;
+        let mut e = self.eol;
+        if self.cfg.mixed_eol {
+            e = if self.rng.chance(1, 2) { "\r\n" } else { "\n" };
+        }
+        let after_comment = {
+            let t = &self.files[self.cur].text;
+            let line = &t[t.rfind('\n').map(|i| i + 1).unwrap_or(0)..];
+            line.contains("//")
+        };
         self.put(e);
+        if self.cfg.mixed_eol && !after_comment && self.rng.chance(1, 4) {
+            // an empty line with the other terminator
+            let e2 = if e == "\n" { "\r\n" } else { "\n" };
+            self.put(e2);
+        }
         let ind = "  ".repeat(self.indent);
         self.put(&ind);
     }
